@@ -195,7 +195,11 @@ func (in *inst) run() {
 		in.curFunc = fd.Name.Name
 		in.block(fd.Body)
 		if g, ok := in.cfg.gates[fd.Name.Name]; ok {
-			fd.Body.List = append([]ast.Stmt{&ast.ExprStmt{X: vs("Gate", &ast.BasicLit{Kind: token.STRING, Value: strconv.Quote(g)})}}, fd.Body.List...)
+			var recv ast.Expr = ast.NewIdent("nil")
+			if fd.Recv != nil && len(fd.Recv.List) == 1 && len(fd.Recv.List[0].Names) == 1 {
+				recv = ast.NewIdent(fd.Recv.List[0].Names[0].Name)
+			}
+			fd.Body.List = append([]ast.Stmt{&ast.ExprStmt{X: vs("Gate", &ast.BasicLit{Kind: token.STRING, Value: strconv.Quote(g)}, recv)}}, fd.Body.List...)
 			in.needVs = true
 			count(in.rel, "T-gate")
 		}
